@@ -11,6 +11,7 @@
 #pragma once
 #include "vf.h"
 #include <csetjmp>
+#include <new>
 #include <cstdarg>
 #include <cstdint>
 #include <cstdio>
@@ -109,6 +110,64 @@ namespace pf
         }
     }
 
+    // ------------------------------------------------------------ CPU-time bound on one engine call
+    // "Formatting always terminates" is part of C06/C13.  The framework's wall-clock watchdog (5 s in the pool, then a
+    // sequential re-run with 10 s) decides it, but a defect that hangs a whole class of directives would keep it busy
+    // for hours, and wall-clock limits are fragile on a loaded machine.  Each engine call therefore also runs under a
+    // CPU-time limit of the worker process (ITIMER_PROF, immune to machine load; a call normally needs microseconds).
+    // Expiry records the failure under the framework's own key format and ends the worker with the framework's
+    // "failure already recorded" exit status, so the runner restarts a worker and goes on.  After HANG_SKIP recorded
+    // hangs the remaining evaluations of the run are skipped (the run is a violation anyway).
+    enum
+    {
+        HANG_CPU_SECONDS = 3,
+        HANG_SKIP = 12
+    };
+    struct HangShared
+    {
+        std::atomic<int> hangs;
+    };
+    inline HangShared *&hang_shared()
+    {
+        static HangShared *p = nullptr;
+        return p;
+    }
+    inline void on_cpu_limit(int)
+    {
+        using namespace vf;
+        Global &G = g();
+        const char *c = G.sh->slots[G.worker].cls;
+        char key[KEY_LEN], det[DETAIL_LEN];
+        snprintf(key, sizeof key, "hang:%s%s%s", G.suites[G.cur_suite].name, c[0] ? "@" : "", c);
+        snprintf(det, sizeof det, "one call of the engine used more than %d s of CPU time; cls=%s", (int)HANG_CPU_SECONDS, c);
+        if (G.verbose)
+            printf("HANG key=%s\n  %s\n", key, det);
+        record_failure("hang", G.cur_suite, G.cur_idx, key, det);
+        if (hang_shared())
+            hang_shared()->hangs.fetch_add(1);
+        flush_local();
+        _exit(77);
+    }
+    // call once from vf_setup() (parent, before the workers are forked)
+    inline void setup()
+    {
+        void *m = mmap(nullptr, 4096, PROT_READ | PROT_WRITE, MAP_SHARED | MAP_ANONYMOUS, -1, 0);
+        if (m != MAP_FAILED)
+            hang_shared() = new (m) HangShared{};
+        struct sigaction sa;
+        memset(&sa, 0, sizeof sa);
+        sa.sa_handler = on_cpu_limit;
+        sigaction(SIGPROF, &sa, nullptr);
+    }
+    inline bool skip_after_hangs() { return hang_shared() && hang_shared()->hangs.load() >= HANG_SKIP; }
+    inline void arm(int seconds)
+    {
+        struct itimerval it;
+        memset(&it, 0, sizeof it);
+        it.it_value.tv_sec = seconds;
+        setitimer(ITIMER_PROF, &it, nullptr);
+    }
+
     struct Result
     {
         std::string bytes;
@@ -123,6 +182,7 @@ namespace pf
         Cap *cap = new Cap;
         Result r;
         volatile int ret = 0;
+        arm(HANG_CPU_SECONDS);
         if (setjmp(cap->runaway) == 0)
         {
             auto call = [&](auto... xs) { return ig_v(cap, fmt, xs...); };
@@ -130,6 +190,7 @@ namespace pf
         }
         else
             r.runaway = true;
+        arm(0);
         r.ret = ret;
         r.bad_char = cap->bad_char;
         r.bytes.swap(cap->bytes);
